@@ -2,8 +2,6 @@ package main
 
 import (
 	"fmt"
-	"go/token"
-	"go/types"
 	"sort"
 	"strings"
 
@@ -289,28 +287,45 @@ func c03Recognisers(p *Prog, r *Report) {
 			continue
 		}
 		r.Func(FuncName(f))
-		consts := map[string]bool{}
-		ptr := false
-		p.instrs(f, func(b *ssa.BasicBlock, i int, in ssa.Instruction) {
-			if bo, ok := in.(*ssa.BinOp); ok && (bo.Op == token.EQL || bo.Op == token.NEQ) {
-				for _, o := range []ssa.Value{bo.X, bo.Y} {
-					if s, ok := constString(o); ok {
-						consts[s] = true
-					}
-				}
-			}
-			if ta, ok := in.(*ssa.TypeAssert); ok {
-				if _, isPtr := ta.AssertedType.(*types.Pointer); isPtr {
-					ptr = true
-				}
-			}
-		})
-		got := sortedKeys(consts)
+		// every positive abstract path (helpers spliced in) compares exactly the package and type name, behind a pointer
+		ips, okp := p.ipaths(f)
 		want := []string{spec.typ, spec.pkg}
 		sort.Strings(want)
-		r.Check("R03b", fmt.Sprintf("goose.%s recognises exactly *%s.%s", spec.fn, spec.pkg, spec.typ), f.Pos(),
-			strings.Join(got, ",") == strings.Join(want, ",") && ptr,
-			fmt.Sprintf("compares against %v (pointer required=%v); a recogniser that also accepts another type gives it this type's model", got, ptr))
+		okAll, npos, detail := okp, 0, ""
+		for _, ip := range ips {
+			if ip.Exit != "return" || len(ip.Ret) == 0 || ip.Ret[0] == "false" {
+				continue
+			}
+			npos++
+			lits := map[string]bool{}
+			ptr := false
+			facts := relList(ip.Rels)
+			if ip.Ret[0] != "true" {
+				facts = append(facts, ip.Ret[0])
+			}
+			for _, k := range facts {
+				if strings.Contains(k, ".(*Pointer)#1 == true") || strings.Contains(k, ".(*Pointer)#0") {
+					ptr = true
+				}
+				if topLevelIndex(k, " != ") >= 0 || strings.HasSuffix(k, " == false") {
+					continue
+				}
+				for _, q := range quotedLits(k) {
+					lits[q] = true
+				}
+			}
+			got := sortedKeys(lits)
+			if strings.Join(got, ",") != strings.Join(want, ",") || !ptr {
+				okAll = false
+				detail = fmt.Sprintf("a positive path compares against %v (pointer required=%v): %s", got, ptr, ip.Trace)
+			}
+		}
+		if npos == 0 {
+			okAll = false
+			detail = "no positive path"
+		}
+		r.Check("R03b", fmt.Sprintf("goose.%s recognises exactly *%s.%s", spec.fn, spec.pkg, spec.typ), f.Pos(), okAll,
+			detail+"; a recogniser that also accepts another type gives it this type's model")
 	}
 	sm := p.Func(Mod, "Ctx.selectorMethod")
 	if sm == nil {
@@ -329,16 +344,19 @@ func c03Recognisers(p *Prog, r *Report) {
 		rs := p.RelsAt(rm, c)
 		var missing []string
 		for _, rec := range []string{"isLockRef", "isCondVar", "isWaitGroup"} {
-			if !hasFactContaining(rs, "goose."+rec+"(") {
-				missing = append(missing, rec)
-				continue
-			}
+			g := p.Func(Mod, rec)
 			okF := false
-			for k := range rs {
-				if strings.Contains(k, "goose."+rec+"(") && strings.HasSuffix(k, "== false") || strings.HasPrefix(k, "false == goose."+rec+"(") {
+			// the calls of the recogniser in this function, under the key the facts use for them
+			p.instrs(sm, func(b *ssa.BasicBlock, i int, in2 ssa.Instruction) {
+				c2, ok := in2.(*ssa.Call)
+				if !ok || g == nil || calleeOf(&c2.Call) != g {
+					return
+				}
+				ck := sk(c2)
+				if rs[ck+" == false"] || rs["false == "+ck] {
 					okF = true
 				}
-			}
+			})
 			if !okF {
 				missing = append(missing, rec)
 			}
@@ -426,4 +444,21 @@ func c03Spawn(p *Prog, r *Report) {
 	r.Check("R03c", "only function literals are spawned", sp.Pos(), okLit, "the body is translated without the fact thread.(*ast.FuncLit) succeeded")
 	r.Check("R03c", "the spawned body has no control effect and binds no parameters", sp.Pos(), okLocal && !touchesParams,
 		fmt.Sprintf("body usage is ExprValLocal=%v; literal's parameter list inspected=%v (parameters would have to be bound before the fork)", okLocal, touchesParams))
+}
+
+// quotedLits: the string literals occurring in a key.
+func quotedLits(k string) []string {
+	var out []string
+	for {
+		i := strings.IndexByte(k, '"')
+		if i < 0 {
+			return out
+		}
+		j := strings.IndexByte(k[i+1:], '"')
+		if j < 0 {
+			return out
+		}
+		out = append(out, k[i+1:i+1+j])
+		k = k[i+j+2:]
+	}
 }
